@@ -43,6 +43,8 @@ class RetryObs:
     stuck: bool = False
     capped: bool = False
     sibling_attempts: list[Attempt] = field(default_factory=list)
+    wait_timeouts: int = 0
+    first_entry_t: float | None = None
 
 
 def run_failing(
@@ -59,6 +61,7 @@ def run_failing(
     lag: float = 0.0,
     sibling: str | None = None,
     sibling_policy: Any = None,
+    wait_timeout: float = 0.0,
 ) -> RetryObs:
     """``exc_for_attempt(i)`` (i = 0,1,..) gives the exception attempt i raises, or None to succeed."""
     obs = RetryObs()
@@ -82,12 +85,22 @@ def run_failing(
             if (queue_wait or busy_block) and getattr(ev, "uid", 1) == 0:
                 await asyncio.sleep(queue_wait or busy_block)
                 return None
+            if obs.first_entry_t is None and not ((queue_wait or busy_block) and getattr(ev, "uid", 1) == 0):
+                obs.first_entry_t = loop.vt
             if wait_on_attempt is not None and sum(1 for a in obs.attempts if a.raised is not None) == wait_on_attempt:
                 # this attempt first waits for an answer from outside (suspends the invocation; the body is entered again
                 # once the answer is there and then gets it from this same call): waiting is not an attempt
                 from vmc.events import Ask, Resp
 
-                await ctx.wait_for_event(Resp, waiter_id="rw", waiter_event=Ask(uid=1), timeout=None)
+                if wait_timeout:
+                    # nobody answers: the wait ends with its TimeoutError (the body is entered again for that), after which the
+                    # attempt goes on and fails - the time spent waiting belongs to this attempt, its retry number does not change
+                    try:
+                        await ctx.wait_for_event(Resp, waiter_id="rwt", timeout=wait_timeout)
+                    except TimeoutError:
+                        obs.wait_timeouts += 1
+                else:
+                    await ctx.wait_for_event(Resp, waiter_id="rw", waiter_event=Ask(uid=1), timeout=None)
             i = counter["n"]
             counter["n"] += 1
             ri = ctx.retry_info()
@@ -142,7 +155,7 @@ def run_failing(
         hd = wf.run(run_id="retry-run")
         e.consume_stream(hd)
         cfg.stop_when = lambda hh: hd.is_done() and hh.stream_done
-        if wait_on_attempt is not None:
+        if wait_on_attempt is not None and not wait_timeout:
             answered = {"n": 0}
 
             def answer(hh: Any) -> None:
